@@ -24,7 +24,7 @@ EXPLANATION = (
     "Session::process starts at a field boundary (SOH) and parsing starts right after '='; R19.4 exactly the five sequence/identity "
     "exception classes construct f8Exception(force_logoff=true); R19.5 in the f8Exception handler: forcing => Logout sent on every "
     "non-silent path, stop() or rethrow, never `return true`; non-forcing => handle_outbound_reject; handle_application is "
-    "dominated by the factory result test. R19.6 in enforce() the CompID comparison is reachable for every established state except logon_received and sequence_check for every established state (enumeration over the state enumerators). NOT decided: actual delivery for concrete histories; exceptions thrown inside callees.")
+    "dominated by the factory result test. R19.6 in enforce() the CompID comparison is reachable for every established state except logon_received and sequence_check for every established state (enumeration over the state enumerators). R19.7 handle_sequence_reset compares NewSeqNo with the expected inbound number (sequence_check is skipped for SequenceReset). NOT decided: actual delivery for concrete histories; exceptions thrown inside callees.")
 
 S = 'FIX8::Session::'
 RECV = S + '_next_receive_seq'
@@ -373,6 +373,9 @@ def run(ctx):
               'SenderCompID/TargetCompID and an acceptable number is delivered' % ', '.join(bad_c))
     ctx.check(not bad_s, 'R19.6', S + 'enforce#sequence-check-states', sc[0].loc, 'the sequence check runs in every established state',
               'sequence_check is skipped in state(s) %s' % ', '.join(bad_s))
+    from . import c20 as _c20
+    _c20.seqreset_compare_rule(ctx, prog, 'R19.7')
+    ctx.floor('R19.7', 1)
     ctx.floor('R19.1', 12)
     ctx.floor('R19.2', 10)
     ctx.floor('R19.4', 20)
